@@ -43,7 +43,8 @@ ASSUMPTIONS = [
     "and the registries (which must not list it) are judged",
     "after assign(use_center_only=True) the registries list the centre lanelets (documented purpose of the flag, outside the "
     "property's sentence about the shape assignment; C07_witness_center_only): the exact-inverse oracle is replaced by 'every "
-    "recorded shape triple is registered and no lanelet lists an obstacle that is not in the scenario' until the next file read, "
+    "recorded shape triple is registered, and whatever a lanelet lists is an obstacle of the scenario whose recorded shape or "
+    "centre set holds the lanelet' (so a removed obstacle is listed nowhere) until the next file read, "
     "which restores the exact inverse (C07_reopen_restores)",
     "the composed model (driver op geo) is compared with the library's lookups only on (obstacle, time step) pairs whose answer "
     "does not depend on float rounding: no lanelet in an ambiguity band, no angle addition, no polygon rotation",
@@ -641,8 +642,8 @@ def judge(w, op, opname, inside, shape_mode, st, sub):
     # (2) registries are exactly the inverse of the shape assignment
     if not shape_mode:
         # after assign(use_center_only=True) the registries list the centre lanelets by the documented purpose of the flag; what
-        # must still hold (C07_superset_run): every recorded shape triple of an obstacle of the scenario is registered, and no
-        # lanelet lists an obstacle that is not in the scenario
+        # holds then (C07_registry_bounds_run, C07_remove_clears): every recorded shape triple of an obstacle of the scenario is
+        # registered, and whatever a lanelet lists is an obstacle of the scenario whose recorded shape or centre set holds it
         for l, reg in st["sreg"].items():
             for i in st["statics"]:
                 if int(l) in (st["fwd"][str(i)]["is"] or []) and i not in reg and w.first(("ws", l, i)):
@@ -653,6 +654,10 @@ def judge(w, op, opname, inside, shape_mode, st, sub):
                     fail(ctx, f"C07/{opname}/registry-lists-removed-obstacle/center-only",
                          f"after {op} (following a centre-only assignment): lanelet {l} lists static obstacle {i}, which is not in "
                          f"the scenario {st['statics']}", sub)
+                elif i in st["statics"] and int(l) not in set(st["fwd"][str(i)]["is"] or []) | set(st["fwd"][str(i)]["ic"] or []) \
+                        and w.first(("extra-s", l, i)):
+                    fail(ctx, f"C07/{opname}/registry-lists-unrecorded/static",
+                         f"after {op}: lanelet {l} lists static obstacle {i} whose recorded shape and centre sets do not hold {l}", sub)
         for l, reg in st["dreg"].items():
             for i in st["dynamics"]:
                 f, o = st["fwd"][str(i)], w.spec[i]
@@ -671,6 +676,17 @@ def judge(w, op, opname, inside, shape_mode, st, sub):
                         fail(ctx, f"C07/{opname}/registry-lists-removed-obstacle/center-only",
                              f"after {op} (following a centre-only assignment): lanelet {l} lists dynamic obstacle {i} at time step "
                              f"{t}, which is not in the scenario {st['dynamics']}", sub)
+                    elif i in st["dynamics"]:
+                        f, o = st["fwd"][str(i)], w.spec[i]
+                        rec = set()
+                        if int(t) == o["t0"]:
+                            rec |= set(f["is"] or []) | set(f["ic"] or [])
+                        if o["kind"] == "traj":
+                            rec |= set((f["ps"] or {}).get(t, [])) | set((f["pc"] or {}).get(t, []))
+                        if int(l) not in rec and w.first(("extra-d", l, t, i)):
+                            fail(ctx, f"C07/{opname}/registry-lists-unrecorded/dynamic",
+                                 f"after {op}: lanelet {l} lists dynamic obstacle {i} at time step {t}; its recorded shape and centre "
+                                 f"sets at {t} do not hold {l}", sub)
         return
     if sorted(inside) != sorted(st["statics"] + st["dynamics"]):
         fail(ctx, f"C07/{opname}/scenario-content", f"after {op}: scenario holds {st['statics']} + {st['dynamics']}, expected {sorted(inside)}", sub)
